@@ -15,8 +15,13 @@ pub fn cases(rng: &mut Rng, count: usize, tier: &str) -> Vec<Case> {
         o.roots_eighths = 6;
         o.max_records = 4;
         o.dense = rng.chance(1, 2);
+        // names beyond the 255-byte limit of the binary term record: a sub-ontology copies them verbatim
+        o.long_names = rng.chance(1, 6);
         let mut tags = vec![];
-        let (w, f) = world::gen_world(rng, o, &mut tags);
+        if o.long_names {
+            tags.push("long_names");
+        }
+        let (w, f) = world::gen_world_custom(rng, o, &mut tags, 4);
         let (root, leaves) = if f.has(1) && rng.chance(1, 3) {
             // from the top: modifier branches are in reach
             let (_, l) = world::gen_sub_args(rng, &f);
